@@ -184,7 +184,22 @@ func (c *recorder) projections() (map[string]any, map[string]any, *absState, err
 			live.Unlock()
 		}
 	}
-	mem := map[string]any{"space": c.r.ss != nil, "acl": memAcl, "tr": tr}
+	obs := make([][]int, recNT)
+	obsAcl := 0
+	for t := range obs {
+		obs[t] = []int{}
+	}
+	if c.r.obs != nil {
+		c.r.obs.mu.Lock()
+		for t := 1; t <= recNT; t++ {
+			obs[t-1] = c.specIds(c.r.obs.last[c.w.roots[t].Id])
+		}
+		if h := c.r.obs.last[c.w.payload.AclWithId.Id]; len(h) == 1 {
+			obsAcl = c.w.aclIndex(h[0])
+		}
+		c.r.obs.mu.Unlock()
+	}
+	mem := map[string]any{"space": c.r.ss != nil, "acl": memAcl, "tr": tr, "obs": obs, "obsAcl": obsAcl}
 	return disk, mem, st, nil
 }
 
@@ -262,6 +277,7 @@ func (c *recorder) execute(start map[string]any, do func() error, reissue func()
 				c.rep.Violate("ReopenValid:acl:record", "BuildAclListWithIdentity fails on a crash image: "+err.Error(), nil)
 				return errAbandon
 			}
+			c.r.attachObserver(st)
 			c.ev(map[string]any{"ev": "reopen"})
 		}
 		return nil
@@ -279,6 +295,9 @@ func (c *recorder) execute(start map[string]any, do func() error, reissue func()
 	if kind == "space" && opErr == nil {
 		if err := c.r.buildAcl(); err != nil {
 			return err
+		}
+		if st, err := readState(c.px.DB); err == nil {
+			c.r.attachObserver(st)
 		}
 	}
 	res := "ok"
@@ -316,6 +335,9 @@ func (c *recorder) execute(start map[string]any, do func() error, reissue func()
 	}
 	for _, v := range liveAgrees(c.r, c.w, cur, treeNo, c.deferred, c.deleted, failedDelete) {
 		c.rep.Violate("LiveAgreesWithDisk:"+v[0]+":"+where, v[1], replay)
+	}
+	if d := c.r.observerAgrees(cur); d != "" {
+		c.rep.Violate("ObserverSawUncommitted:headstorage.UpdateEntry", "after "+where+": "+d, replay)
 	}
 	if retry, _ := start["retry"].(bool); retry && opErr != nil && !hit {
 		c.rep.Violate("RetrySucceeds:"+where, fmt.Sprintf("re-issued operation is refused: %v", opErr), replay)
